@@ -66,9 +66,9 @@ class KnownFindings:
                 if not line or line.startswith('#'):
                     continue
                 if line.startswith('finding:'):
-                    m = re.match(r'finding:\s+property=(\S+)\s+obligation=(\S+)\s+sig=(\S+)\s*(.*)', line)
+                    m = re.match(r'finding:\s+property=(\S+)\s+obligation=("[^"]*"|\S+)\s+sig=(\S+)\s*(.*)', line)
                     if m:
-                        self.findings.append(dict(props=m.group(1).split(','), ob=m.group(2), sig=m.group(3),
+                        self.findings.append(dict(props=m.group(1).split(','), ob=m.group(2).strip('"'), sig=m.group(3),
                                                   text=m.group(4)))
                 elif line.startswith('fixed:'):
                     self.fixed.append(line)
